@@ -267,7 +267,7 @@ def assert_string_is_valid_schema_target_filename(filename: str):
 
 
 def assert_string_is_valid_python_identifier(name: str):
-    if not name.isidentifier() and not iskeyword(name):
+    if not name.isidentifier() or iskeyword(name):
         raise InvalidConfiguration(
             f"Provided name {name} cannot be used as python identifier."
         )
